@@ -137,6 +137,8 @@ class ScalarOp(diff.DiffOperator, operator.CombinableOperator):
 
         arrs = scalar_combine(arrs[0], op2.arr, arrs[1], op2.arr0)
 
+        # every pair for which a second-order array was formed is a pair of the combined operator
+        order2 = order2 | set(d2arrs)
         return ScalarOp(
             arrs[0],
             arrs[1],
